@@ -819,7 +819,42 @@ pub fn gen_storage(r: &mut Rng) -> Vec<u8> {
 
 pub fn gen_cfg(r: &mut Rng) -> Vec<u8> {
     let mut a = Asm::new();
-    match r.below(8) {
+    match r.below(10) {
+        8 | 9 => {
+            // a loop head that is also forked to from elsewhere, several
+            // times and from paths that are scheduled later: the fork budget
+            // of one target is used up, revisited at the iteration limit, and
+            // asked for again
+            let t = a.new_label();
+            let u = a.new_label();
+            let v = a.new_label();
+            if r.chance(1, 2) {
+                a.push_u(4).op(op::CALLDATALOAD).jumpi_to(u);
+            }
+            a.place(t);
+            if r.chance(1, 2) {
+                a.op(op::CALLER).push_u(r.below(3) as u128).op(op::SSTORE);
+            }
+            let back = 1 + r.usize_below(3);
+            for i in 0..back {
+                a.push_u(36 + 32 * i as u128).op(op::CALLDATALOAD).jumpi_to(t);
+            }
+            a.op(op::CALLDATASIZE).jumpi_to(u);
+            a.op(op::STOP);
+            a.place(u);
+            a.op(op::CALLVALUE).jumpi_to(t);
+            if r.chance(1, 2) {
+                a.op(op::GAS).jumpi_to(v);
+            }
+            a.op(op::STOP);
+            a.place(v);
+            a.op(op::TIMESTAMP).jumpi_to(t);
+            if r.chance(1, 2) {
+                a.jump_to(u);
+            } else {
+                a.op(op::STOP);
+            }
+        }
         0 => {
             // tight loop on a symbolic condition
             let top = a.new_label();
